@@ -653,10 +653,19 @@ func runWitness(repo string, kf *KnownFinding) (bool, string) {
 	ov, _ := json.Marshal(map[string]interface{}{"Replace": map[string]string{filepath.Join(pkgDir, "gocv_witness_test.go"): src}})
 	ovf := filepath.Join(tmp, "ov.json")
 	os.WriteFile(ovf, ov, 0o644)
-	cmd := exec.Command("bash", "-c", fmt.Sprintf("cd %s && go test -overlay %s -vet=off -count=1 -timeout 60s -run '^TestGocvWitness$' -v .", pkgDir, ovf))
-	cmd.Env = append(os.Environ(), "GOFLAGS=-mod=mod", "GOPROXY=off")
-	out, _ := cmd.CombinedOutput()
-	ok := strings.Contains(string(out), "WITNESS-REPRODUCED")
+	var out []byte
+	ok := false
+	// A witness that does not reproduce is tried once more with a longer limit: a slow build on a loaded machine must
+	// not look like "the defect is gone".
+	for attempt, limit := 0, "120s"; attempt < 2 && !ok; attempt, limit = attempt+1, "300s" {
+		cmd := exec.Command("bash", "-c", fmt.Sprintf("cd %s && go test -overlay %s -vet=off -count=1 -timeout %s -run '^TestGocvWitness$' -v .", pkgDir, ovf, limit))
+		cmd.Env = append(os.Environ(), "GOFLAGS=-mod=mod", "GOPROXY=off")
+		out, _ = cmd.CombinedOutput()
+		ok = strings.Contains(string(out), "WITNESS-REPRODUCED")
+		if !ok && strings.Contains(string(out), "\nok  \t") {
+			break // the test ran to completion and did not reproduce: no point in repeating
+		}
+	}
 	detail := trunc(string(out), 600)
 	v := "0"
 	if ok {
